@@ -6,6 +6,7 @@ import OsuProofs.JacobianRotation
 import OsuProofs.StepEquivariant
 import OsuProofs.NewtonMirror
 import OsuProofs.MemRotation
+import OsuProofs.CholeskyNewton
 /-
 C06 — estimators reproduce the input moments; solvers agree; the Jacobian is the derivative of
 the constraint function; output rotates with input.
@@ -319,5 +320,32 @@ example {N : ℕ} [NeZero N] (θ0 Δ : ℝ) (k : Fin N) :
   refine ⟨?_, fun _ _ => rfl⟩
   intro lam g _ _
   simp [rotLam]
+
+/-! ### the linear solve of the Newton step (`solve_cholesky`) -/
+
+/-- **`solve_cholesky` is an exact solver on symmetric 4×4 systems**: whenever it returns a vector
+(every pivot positive) that vector satisfies all four equations, for any matrix and right-hand side
+(model `cholSolve`: Cholesky–Banachiewicz factorisation, forward and back substitution, as coded) -/
+theorem cholesky_solves_4x4 (a00 a10 a11 a20 a21 a22 a30 a31 a32 a33 b0 b1 b2 b3 : ℝ) (x : List ℝ)
+    (h : cholSolve [[a00, a10, a20, a30], [a10, a11, a21, a31], [a20, a21, a22, a32], [a30, a31, a32, a33]]
+      [b0, b1, b2, b3] = some x) :
+    ∃ x0 x1 x2 x3 : ℝ, x = [x0, x1, x2, x3] ∧
+      a00 * x0 + a10 * x1 + a20 * x2 + a30 * x3 = b0 ∧
+      a10 * x0 + a11 * x1 + a21 * x2 + a31 * x3 = b1 ∧
+      a20 * x0 + a21 * x1 + a22 * x2 + a32 * x3 = b2 ∧
+      a30 * x0 + a31 * x1 + a32 * x2 + a33 * x3 = b3 :=
+  cholSolve4_solves a00 a10 a11 a20 a21 a22 a30 a31 a32 a33 b0 b1 b2 b3 x h
+
+/-- hence the step the Newton iteration takes with it is the exact Newton step `J x = g` for the
+constraint Jacobian of any multipliers, on any grid (the `solves` clause of `ExactSolve`, which the
+rotation and mirror theorems of the Newton iteration assume of the solver) -/
+theorem cholesky_newton_step_exact (lam delta : List ℝ) (T : List (List ℝ)) (g0 g1 g2 g3 : ℝ) (x : List ℝ)
+    (h : cholSolve (jacobian lam delta T) [g0, g1, g2, g3] = some x) :
+    x.length = 4 ∧ Matrix.mulVec (toMat (jacobian lam delta T)) (toVec x) = toVec [g0, g1, g2, g3] :=
+  cholSolve_jacobian_exact lam delta T g0 g1 g2 g3 x h
+
+/-- the hypothesis is met: the identity matrix is factorised and the system solved -/
+example : cholSolve [[1, 0, 0, 0], [0, 1, 0, 0], [0, 0, 1, 0], [0, 0, 0, (1 : ℝ)]] [1, 2, 3, 4] = some [1, 2, 3, 4] := by
+  norm_num [cholSolve, cholForward, cholRow0, cholRow1, cholRow2, cholRow3, cholBackward4]
 
 end Osu.Props.C06
